@@ -1195,6 +1195,18 @@ class P(Prop):
             return "horizontal-segment-fp"
         if vert and hfp and check_answer(X, Y, q, d, xp, yp, i, reduced=vert + hfp) is None:
             return "vertical-segment"
+        if len(hfp) > 1:
+            # D17 is per segment: the inclusion test of each fp-horizontal segment fails or not on its own rounding. The
+            # answer is explained iff it is right once exactly the fp-horizontal segments that are NEARER than the returned
+            # distance are reduced to their end points (reducing fewer gives a smaller minimum, reducing more a larger one).
+            tol_ = TOL * max(scale_of(X, Y, q), abs(d))
+            qx, qy = fr(q[0]), fr(q[1])
+            S = [j for j in hfp if math.sqrt(seg_d2(qx, qy, *segs[j])) < d - tol_]
+            if S and len(S) < len(hfp):
+                if check_answer(X, Y, q, d, xp, yp, i, reduced=S) is None:
+                    return "horizontal-segment-fp"
+                if vert and check_answer(X, Y, q, d, xp, yp, i, reduced=vert + S) is None:
+                    return "vertical-segment"
         tol = TOL * max(scale_of(X, Y, q), abs(d))
         frag = [j for j in live if is_near_vertical_fp(X, Y, j, tol)]
         if frag and check_fragile(X, Y, q, d, xp, yp, i, frag, vert + hfp) is None:
